@@ -26,6 +26,7 @@ GENERAL_ASSUMPTIONS = [
     "Python integers are modelled as 256-bit two's-complement vectors; every + - * << is guarded by an interval check that excludes wrap-around (violations make the unit undecided, never a pass)",
     "generator expressions of the library are evaluated eagerly (they have no side effects between items)",
     "inputs are quantified over the field widths the standards give them (stated per unit as `U(bits)`)",
+    "resource limits of the checker: workers run under an 8 GiB address-space limit (a MemoryError of the code under test on unconstrained sizes is a skipped native run, not a verdict); native runs are time-boxed (60 s; a run that does not return is the outcome 'does not terminate'); the truth value of an uninterpreted value forks on a fresh boolean (over-approximation; spurious counterexamples do not replay and are not reported)",
 ]
 
 
